@@ -69,6 +69,7 @@ def read_bool(s):
 UNITS = {"k": 1 << 10, "m": 1 << 20, "g": 1 << 30, "t": 1 << 40}
 _SIZE_TOK = re.compile(r"([0-9]+(\.[0-9]+)?)([kmgt]?)")
 _SIZE_TOK_LIBERAL = re.compile(r"([0-9]+\.?[0-9]*|\.[0-9]+)(e[+-]?[0-9]+)?([kmgt]?)")
+_SIZE_TOK_HEX = re.compile(r"0x([0-9a-f]+\.?[0-9a-f]*|\.[0-9a-f]+)(p[+-]?[0-9]{1,3})?([kmgt]?)")
 
 
 def _tokens(t, rx, unit_group):
@@ -104,8 +105,29 @@ def read_size(s):
         return (DONTCARE if dc else VALID), tot
     lib = _tokens(t, _SIZE_TOK_LIBERAL, 3)
     if lib is None:
-        if re.fullmatch(r"(0x[0-9a-f]+(\.[0-9a-f]*)?(p[+-]?[0-9]{1,3})?[kmgt]?)+", t):
-            return DONTCARE, None  # hexadecimal notation accepted by strtold
+        # hexadecimal notation (accepted by strtold), possibly mixed with decimal components
+        pos, okhex, tot = 0, True, F(0)
+        while pos < len(t):
+            m = _SIZE_TOK_HEX.match(t, pos) or _SIZE_TOK_LIBERAL.match(t, pos)
+            if not m or m.end() == pos:
+                okhex = False
+                break
+            if m.re is _SIZE_TOK_HEX:
+                mant = m.group(1)
+                ip, _, fp = mant.partition(".")
+                val = F(int(ip or "0", 16)) + (F(int(fp, 16), 16 ** len(fp)) if fp else 0)
+                if m.group(2):
+                    e = int(m.group(2)[1:])
+                    val = val * (F(2) ** e)
+                tot += val * UNITS.get(m.group(3), 1)
+            else:
+                e = m.group(2)
+                if e and len(e) > 6:
+                    return INVALID, None
+                tot += F(m.group(1) + (e or "")) * UNITS.get(m.group(3), 1)
+            pos = m.end()
+        if okhex:
+            return (INVALID, None) if tot > I64_MAX else (DONTCARE, None)
         return INVALID, None
     tot = F(0)
     for m in lib:
@@ -128,6 +150,9 @@ def read_size_or_percent(s, total):
             return INVALID, None
         return st, F(total) * v / 100
     st, v = read_int(s, I64_MIN, I64_MAX)
+    if st != INVALID and s != s.strip(" \t\n"):
+        # "5 " may be read as megabytes (bare number) or as bytes (size grammar): undocumented
+        return DONTCARE, None
     if st != INVALID:
         if v < 0 or v > (I64_MAX >> 20):
             return (INVALID if v > (I64_MAX >> 20) else DONTCARE), None
